@@ -190,7 +190,8 @@ public:
         finish();
         received.clear(); sent = 0; saw_eof = false; connected = false; err.clear(); done = false; reused = false; tls_ok = false;
         bool passive = lfd >= 0;
-        worker = std::thread([this, act, passive] {
+        std::optional<sockaddr_storage> target = this->target; socklen_t target_len = this->target_len;
+        worker = std::thread([this, act, passive, target, target_len] {
             peer_scope ps;
             int fd = -1;
             if (passive)
@@ -202,7 +203,7 @@ public:
             else if (target)
             {
                 fd = ::socket(target->ss_family, SOCK_STREAM, 0);
-                if (::connect(fd, reinterpret_cast<sockaddr *>(&*target), target_len) != 0) { err = "connect-failed"; ::close(fd); fd = -1; }
+                if (::connect(fd, reinterpret_cast<const sockaddr *>(&*target), target_len) != 0) { err = "connect-failed"; ::close(fd); fd = -1; }
             }
             else err = "no-endpoint";
             if (fd >= 0)
@@ -285,6 +286,13 @@ public:
     std::vector<std::string> resolved;                 // the groups actually played (placeholders resolved), for the driver
     std::vector<std::string> generated;                // raw replies generated during the current operation
     bool transfer_started = false;
+    // E-app only: the model assumes that the server's data peer shows up once the server has accepted a transfer command
+    // (data_connection::accept / recv have no time-out: the client would block for ever, which is neither an exit nor an
+    // answer).  With this flag a non-negative answer to a transfer command whose group has no data action makes the peer
+    // connect / accept and then close (downloads; the last scripted payload is sent again when there is one, as in the
+    // model) or read everything (uploads).
+    bool implicit_data = false;
+    data_action last_act;
     group last_group;                                  // the group played for the last command (flags for the transport)
 
     void begin_op(const std::vector<group> & groups) { script = groups; next = 0; commands.clear(); generated.clear(); resolved.clear(); transfer_started = false; }
@@ -306,6 +314,7 @@ public:
             if (f.size() == 5) peer.set_target(f[2], static_cast<std::uint16_t>(std::atoi(f[3].c_str())));
             peer.close_listener();
         }
+        else if (line == "EPSV" || line == "PASV") peer.target.reset();
         group g;
         if (next < script.size()) g = script[next++];
         else g.items.push_back("r" + hex("500 script exhausted\r\n").substr(1));
@@ -328,6 +337,21 @@ public:
         }
         resolved.push_back(res.empty() ? "-" : res);
         if (g.act.kind != data_action::none) { peer.start(g.act); transfer_started = true; }
+        else if (implicit_data && (peer.target || peer.lfd >= 0) && !bytes.empty() && bytes[0] >= '1' && bytes[0] <= '3')
+        {
+            std::string verb = line.substr(0, line.find(' '));
+            bool up = verb == "STOR" || verb == "APPE" || verb == "STOU";
+            if (up || verb == "RETR" || verb == "LIST" || verb == "NLST")
+            {
+                if (peer.target) peer.close_listener();       // the client listens (PORT / EPRT was its last word): connect to it
+                data_action a;
+                if (up) { a.kind = data_action::recv; a.limit = -1; }
+                else if (last_act.kind == data_action::send) a = last_act;        // the model keeps the last scripted payload
+                else a.kind = data_action::touch;
+                peer.start(a); transfer_started = true;
+            }
+        }
+        if (g.act.kind != data_action::none) last_act = g.act;
         std::vector<std::string> out;
         std::size_t pos = 0, i = 0;
         while (pos < bytes.size())
